@@ -28,6 +28,9 @@ import (
 func ParsePKCS12(blob []byte, prompt passprompt.PasswordGetter) (*Certificate, error) {
 	var password string
 	var triedEmpty bool
+	if prompt == nil {
+		return nil, errors.New("PKCS12 file needs a password and no password was provided")
+	}
 	for {
 		var err error
 		password, err = prompt.GetPasswd("Password for PKCS12: ")
